@@ -96,7 +96,7 @@ impl InfixFormat {
     pub(super) fn custom(fmt: &str) -> Self {
         Self::Custom(fmt.to_string())
     }
-    fn format(&self) -> &str {
+    pub(crate) fn format(&self) -> &str {
         match self {
             Self::Std => Self::STD_INFIX_FORMAT,
             Self::Custom(fmt) => fmt,
